@@ -89,6 +89,7 @@ pub struct RunStats {
     pub sched: SchedStats,
     pub twin_same_compared: u64,
     pub twin_other_compared: u64,
+    pub twin_fresh_thread_compared: u64,
     pub skipped_order_sensitive: u64,
     pub faults_planned: u64,
     pub faults_fired_in_comprehension: u64,
@@ -742,6 +743,40 @@ impl<'a, 'w> Runner<'a, 'w> {
                 self.violate("I5a-twin", idx, got.show(), outcome.show(), d);
                 return;
             }
+            // ... and so does a brand-new OS thread that has no history at all (per-thread state such as a
+            // `thread_local!` memo is stable under immediate re-execution on the same thread, so only a
+            // thread without a past can tell that the past mattered)
+            if mix(&[key, 0xf4e5]) % 2 == 0 {
+                let retained: Vec<Value> = tls::with(|ts| ts.retained.clone());
+                let buggify = w.knobs.buggify_milli;
+                let tid = self.tid;
+                let me: &Runner = &*self;
+                let fresh: Option<Outcome> = std::thread::scope(|sc| {
+                    sc.spawn(move || {
+                        tls::activate(tid, None, 0, buggify);
+                        tls::with(|ts| ts.retained = retained);
+                        let mut got = None;
+                        me.with_twin(false, target, &mut |tw| {
+                            tls::begin_exec(key ^ 0x0f7e_5a11, fail_at);
+                            got = Some(execute(program, tw));
+                            let _ = tls::end_exec();
+                        });
+                        let _ = tls::deactivate();
+                        got
+                    })
+                    .join()
+                    .ok()
+                    .flatten()
+                });
+                self.stats.twin_fresh_thread_compared += 1;
+                if let Some(f) = fresh {
+                    if &f != outcome {
+                        let d = format!("{}: a thread without any history, on a freshly built equal context, gets a different result than this thread gets after its history", self.describe_op(idx));
+                        self.violate("I5a-fresh-thread", idx, f.show(), outcome.show(), d);
+                        return;
+                    }
+                }
+            }
         }
         if w.knobs.twin_other {
             let mut got: Option<Outcome> = None;
@@ -897,6 +932,7 @@ fn merge(into: &mut RunStats, from: &RunStats) {
     into.ops += from.ops;
     into.twin_same_compared += from.twin_same_compared;
     into.twin_other_compared += from.twin_other_compared;
+    into.twin_fresh_thread_compared += from.twin_fresh_thread_compared;
     into.skipped_order_sensitive += from.skipped_order_sensitive;
     into.faults_planned += from.faults_planned;
     into.outcomes_ok += from.outcomes_ok;
